@@ -246,7 +246,7 @@ def run(ctx):
             part = keep
         sq = squidctl.Squid(ctx, tree, name='c03-%s' % relaxed, clock=False,
                             conf_extra='relaxed_header_parser %s\nrequest_timeout 5 seconds\nclient_lifetime 20 seconds\n' % ('on' if relaxed else 'off') +
-                            'url_rewrite_program /usr/bin/env python3 %s 1.0\nurl_rewrite_children 16 startup=8 idle=1 concurrency=0\n' % os.path.join(VERIF, 'e2e', 'slow_helper.py') +
+                            'url_rewrite_program /usr/bin/env python3 %s 1.0\nurl_rewrite_children 16 startup=8 idle=1 concurrency=0\n' % squidctl.stage(os.path.join(VERIF, 'e2e', 'slow_helper.py')) +
                             'acl slowc03 urlpath_regex /aslow$\nurl_rewrite_access allow slowc03\nurl_rewrite_access deny all\n')
         sq.start()
         try:
